@@ -16,10 +16,10 @@ type Case struct {
 	Project *Project `json:"project"` // file tree, root
 	Entry   string   `json:"entry"`   // "path": kit.NewJapi(root path); "mem": kit.NewJApiFromFile(root bytes), INCLUDEs from disk
 	Faults  []Fault  `json:"faults,omitempty"`
-	Expect  *Expect  `json:"expect,omitempty"` // fault-located expectation (C07c)
+	Expect  *Expect  `json:"expect,omitempty"`  // fault-located expectation (C07c)
 	Banned  []string `json:"banned,omitempty"`  // directive keywords passed to core.WithBannedDirectives for this build
 	RootAs  int      `json:"root_as,omitempty"` // spelling of the root path: 0 a/p/root.jst, 1 ./a/p/.., 2 a/p/./.., 3 a//p/.., 4 a/q/../p/.., 5 absolute, 6 ../<cwd name>/a/p/..
-	Prior   int      `json:"prior,omitempty"`  // sim-disk engines: this many damaged older versions of the same project are built first, at the same paths, in the same process and pool session
+	Prior   int      `json:"prior,omitempty"`   // sim-disk engines: this many damaged older versions of the same project are built first, at the same paths, in the same process and pool session
 
 	History []Step    `json:"history,omitempty"` // C16: accessor calls with environment changes
 	Reps    []Rep     `json:"reps,omitempty"`    // C06: repetitions of the same build under different environments
@@ -43,10 +43,11 @@ type Env struct {
 	Ambient  uint64   `json:"ambient,omitempty"`   // seed of clock / global rand / pid / env answers
 	Prior    int      `json:"prior,omitempty"`     // build this many unrelated projects first (prior history)
 	Fresh    bool     `json:"fresh,omitempty"`     // execute in a fresh process
+	Sibling  bool     `json:"sibling,omitempty"`   // the first prior build is a near-variant of the observed project (same paths and names spelled differently)
 	Conc     int      `json:"conc,omitempty"`      // build concurrently with this many other builds (seeded scheduler, isolating pool)
 	ConcSeed uint64   `json:"conc_seed,omitempty"`
-	Cwd      string   `json:"cwd,omitempty"`       // working directory of the process during the observed build, relative to the worker's own (the root is then named by its absolute path)
-	Repeat   int      `json:"repeat,omitempty"`    // soak: build and serialise this many times in a row in the same process, every result must equal the first
+	Cwd      string   `json:"cwd,omitempty"`    // working directory of the process during the observed build, relative to the worker's own (the root is then named by its absolute path)
+	Repeat   int      `json:"repeat,omitempty"` // soak: build and serialise this many times in a row in the same process, every result must equal the first
 }
 
 type Step struct {
@@ -148,11 +149,11 @@ type TaskProg struct {
 }
 
 type TaskOp struct {
-	Kind   string `json:"kind"`             // "build" (own instance of project Proj) | "call" (accessor Op)
-	Proj   int    `json:"proj"`             // index into Projects
-	Shared bool   `json:"shared,omitempty"` // call goes to the shared catalog of project Proj
+	Kind   string   `json:"kind"`             // "build" (own instance of project Proj) | "call" (accessor Op)
+	Proj   int      `json:"proj"`             // index into Projects
+	Shared bool     `json:"shared,omitempty"` // call goes to the shared catalog of project Proj
 	Banned []string `json:"banned,omitempty"` // build: directive keywords passed to core.WithBannedDirectives
-	Op     string `json:"op,omitempty"`
+	Op     string   `json:"op,omitempty"`
 }
 
 type SchedCfg struct {
